@@ -126,6 +126,10 @@ def gen(ctx, deep):
                     jobs.append((cfg, [("autosave", False), a]))
                     jobs.append((cfg, [("autonotify", False), ("setwatcher",), a]))
                     jobs.append((cfg, [("setwatcher",), a]))
+                    if not is_async:
+                        # reloading the MODEL invalidates the policy but must leave watcher and flags alone
+                        jobs.append((cfg, [("loadmodel",), a]))
+                        jobs.append((cfg, [("autonotify", False), ("loadmodel",), a]))
                 if not is_async or deep:
                     for a in ops:
                         for b in ops:
